@@ -10,7 +10,7 @@ mkdir -p $DEST
 git -C /repo worktree add --detach $WT HEAD >/dev/null 2>&1 || { echo "worktree failed"; exit 2; }
 trap 'git -C /repo worktree remove --force $WT >/dev/null 2>&1; rm -rf $WT' EXIT
 LOG=$DEST/confirm.log; : > $LOG
-cp $SRCDIR/patch.diff $DEST/; cp $SRCDIR/demo.* $SRCDIR/build.sh $DEST/ 2>/dev/null
+for f in $SRCDIR/*; do case "$(basename $f)" in *.log|*.txt|demo|_objs|meta.json) ;; *) [ -f "$f" ] && cp "$f" $DEST/ ;; esac; done
 run_demo() { # $1 = tag
   rm -f $DEST/demo
   ( cd $DEST && sh ./build.sh ) >>$LOG 2>&1 || { echo "demo build failed ($1)" >>$LOG; return 99; }
